@@ -14,8 +14,9 @@ What is NOT decided: the values of the weights, linear exactness and conservatio
 computed by scipy/numpy at run time).
 """
 import ast
+import re
 
-from ..engine import AnalysisError, dotted, iter_stmts, norm, kw, const_str
+from ..engine import AnalysisError, dotted, iter_stmts, norm, kw, const_str, parent_chain
 from ..report import Finding
 from .. import api
 
@@ -61,7 +62,11 @@ def run(ctx):
     okax = ax is not None and norm(ax) in ('-1', '1')
     okkd = kd is None or const_str(kd) == 'linear'
     okargs = len(c.args) >= 2 and norm(c.args[0]) == params[0] and isinstance(c.args[1], ast.Name) and c.args[1].id == norm(ident[0].targets[0])
-    if okax and okkd and okargs:
+    extra_kw = [k.arg for k in c.keywords if k.arg not in ('axis', 'kind', 'bounds_error', 'fill_value', 'copy')]
+    if extra_kw:
+        ctx.violation(Finding('R-PARTUNITY', CU, 'getinterpweights', api.stmt_of(c), 'interp1d is called with %s: with assume_sorted=True a decreasing source coordinate (pressure, sigma) is not sorted and every target is '
+                              'extrapolated from an end segment' % extra_kw), oid='interpolant')
+    elif okax and okkd and okargs:
         ctx.ok('R-PARTUNITY', 'interpolant', where, norm(c)[:80])
     else:
         ctx.violation(Finding('R-PARTUNITY', CU, 'getinterpweights', api.stmt_of(c), 'the weights are not the linear interpolant of the identity over the source coordinates along its last axis (%s)' % norm(c)[:70]))
@@ -148,6 +153,30 @@ def run(ctx):
                     ctx.violation(Finding('R-CONTRACT', rp, q, api.stmt_of(c), 'the product is summed over axis %s but the source axis of the weights is %d (target axis of the data inserted at %d): the '
                                           'interpolated values are sums over the wrong axis' % (axis, sa, na)), oid=oid)
     ctx.floor('applications of an interpolation weight matrix', napp, 5)
+    # ---- the N-d branch computes the weights for every column from that column's own old *and* new coordinates
+    ctx.rule('R-WEIGHTSPERCOL', 'interpDimension (N-d coordinates): the weights of a column are computed inside the column loop, unconditionally, from its own old and new coordinates')
+    idf = src.mod('core/_files.py').func('PseudoNetCDFFile.interpDimension')
+    widf = 'src/PseudoNetCDF/core/_files.py PseudoNetCDFFile.interpDimension'
+    colloops = [l_ for l_ in ast.walk(idf) if isinstance(l_, ast.For) and 'np.ndindex' in norm(l_.iter)]
+    if not colloops:
+        ctx.undec('R-WEIGHTSPERCOL', 'column loop', widf, 'np.ndindex loops not found')
+    else:
+        innermost = colloops[-1]
+        calls_ = [st for st in innermost.body if isinstance(st, ast.Assign) and isinstance(st.value, ast.Call) and (dotted(st.value.func) or '').endswith('getinterpweights')]
+        nested = [c for c in ast.walk(innermost) if isinstance(c, ast.Call) and (dotted(c.func) or '').endswith('getinterpweights')]
+        if calls_:
+            a_ = [norm(x) for x in calls_[0].value.args[:2]]
+            defs_ = dict((norm(st.targets[0]), norm(st.value)) for st in innermost.body if isinstance(st, ast.Assign) and isinstance(st.targets[0], ast.Name))
+            if 'olddimvals' in defs_.get(a_[0], '') and 'newdimvals' in defs_.get(a_[1], ''):
+                ctx.ok('R-WEIGHTSPERCOL', 'column loop', widf, norm(calls_[0])[:70])
+            else:
+                ctx.violation(Finding('R-WEIGHTSPERCOL', 'core/_files.py', 'PseudoNetCDFFile.interpDimension', calls_[0], 'the weights are not computed from this column of olddimvals and this column of newdimvals'))
+        elif nested:
+            g_ = [p_ for p_ in parent_chain(api.stmt_of(nested[0])) if isinstance(p_, ast.If)]
+            ctx.violation(Finding('R-WEIGHTSPERCOL', 'core/_files.py', 'PseudoNetCDFFile.interpDimension', api.stmt_of(nested[0]), 'the weights are recomputed only when `%s`: a column whose %s coordinate differs while the tested one '
+                                  'repeats is interpolated with another column\'s weights' % (norm(g_[0].test)[:60] if g_ else '?', 'new' if g_ and 'od' in norm(g_[0].test) else 'other')))
+        else:
+            ctx.violation(Finding('R-WEIGHTSPERCOL', 'core/_files.py', 'PseudoNetCDFFile.interpDimension', innermost, 'the weights are not computed inside the column loop'))
     # ---- mass-conserving form in ioapi_base.interpSigma
     io = src.mod('cmaqfiles/_ioapi.py')
     isf = io.func('ioapi_base.interpSigma')
@@ -194,7 +223,14 @@ def run(ctx):
         val = defs[-1].value if defs else val
     bdef = [s2 for s2 in iter_stmts(sc.body) if isinstance(s2, ast.Assign) and norm(s2.targets[0]) == 'bf']
     tdef = [s2 for s2 in iter_stmts(sc.body) if isinstance(s2, ast.Assign) and norm(s2.targets[0]) == 'tf']
-    if norm(val) == 'tf - bf' and bdef and tdef and norm(bdef[-1].value) == 'max(b - lay, 0)' and norm(tdef[-1].value) == 'min(t - lay, 1)':
+    loopv = [l_.target.id for l_ in ast.walk(sc) if isinstance(l_, ast.For) and isinstance(l_.target, ast.Name) and any(x is st for x in ast.walk(l_))]
+    lv = loopv[-1] if loopv else 'lay'
+    mb = re.match(r'^max\(b - (\w+), 0\)$', norm(bdef[-1].value)) if bdef else None
+    mt = re.match(r'^min\(t - (\w+), 1\)$', norm(tdef[-1].value)) if tdef else None
+    if norm(val) == 'tf - bf' and mb and mt and (mb.group(1) != lv or mt.group(1) != lv):
+        ctx.violation(Finding('R-OVERLAP', CU, 'sigma2coeff', bdef[-1] if mb.group(1) != lv else tdef[-1], 'the fraction is measured from %s instead of the source layer %s of the loop: for every further layer a target '
+                              'reaches into, the offset of the first layer is subtracted again, so the overlap fractions are too small or negative' % (mb.group(1) if mb.group(1) != lv else mt.group(1), lv)))
+    elif norm(val) == 'tf - bf' and bdef and tdef and norm(bdef[-1].value) == 'max(b - lay, 0)' and norm(tdef[-1].value) == 'min(t - lay, 1)':
         ctx.ok('R-OVERLAP', 'coeff', w, 'coeff[lay, li] = min(t - lay, 1) - max(b - lay, 0)')
     elif norm(val) == 'tf - bf':
         ctx.undec('R-OVERLAP', 'coeff', w, 'clipping of the fractions not in the recognised form')
